@@ -24,7 +24,7 @@ def default_app():
     return app
 
 
-def serve(name, root, method='GET', rng=None, ims=None, **kw):
+def serve(name, root, method='GET', rng=None, ims=None, between=None, **kw):
     app = default_app()
     _state.update(name=name, root=root, kw=kw)
     env = base_environ(REQUEST_METHOD=method, PATH_INFO='/__static__')
@@ -38,6 +38,8 @@ def serve(name, root, method='GET', rng=None, ims=None, **kw):
     def sr(status, headers, exc_info=None):
         rec['status'], rec['headers'] = status, list(headers)
     out = app(env, sr)
+    if between is not None:
+        between()        # what happens on the server between the answer being decided and its body being sent
     chunks = []
     try:
         for part in out:
